@@ -27,6 +27,10 @@ struct seqx_spec {
     bool (*nontrivial)(void *st);
     /* optional: end-of-history oracle run at fini time (after teardown) */
     int (*final_check)(void *st);
+    /* optional: cheap pre-check; a replayed prefix state is reused across
+     * ops it reports disabled (apply must then never return SEQX_DISABLED
+     * after having touched the object) */
+    bool (*enabled)(void *st, int op);
 };
 
 static char seqx_sig[256];
@@ -184,7 +188,10 @@ static int seqx_explore(const struct seqx_spec *spec, int maxdepth,
     for (int depth = 1; depth <= maxdepth && !capped; depth++) {
         for (size_t ni = level_begin; ni < level_end && !capped; ni++) {
             int n = seqx_hist(&r, (int)ni, hist, 120);
-            for (int op = 0; op < spec->nops; op++) {
+            void *cached = NULL;
+            for (int op = 0; op <= spec->nops; op++) {
+                if (op == spec->nops)
+                    break;
                 if (depth == 1 && seqx_nshards > 1 && op % seqx_nshards != seqx_shard)
                     continue;
                 if (v_now() - t0 > deadline_s ||
@@ -197,8 +204,13 @@ static int seqx_explore(const struct seqx_spec *spec, int maxdepth,
                     seqx_hist_str(spec, hist, n + 1, hs, sizeof(hs), false);
                     v_crash_note(hs);
                 }
-                st = seqx_fresh(spec);
                 int res = SEQX_OK;
+                if (cached != NULL) {
+                    st = cached;
+                    cached = NULL;
+                    goto have_prefix;
+                }
+                st = seqx_fresh(spec);
                 for (int i = 0; i < n; i++) {
                     res = spec->apply(st, hist[i], false);
                     if (res != SEQX_OK) {
@@ -214,6 +226,12 @@ static int seqx_explore(const struct seqx_spec *spec, int maxdepth,
                 if (res != SEQX_OK) {
                     if (spec->fini)
                         spec->fini(st);
+                    continue;
+                }
+            have_prefix:
+                if (spec->enabled != NULL && !spec->enabled(st, op)) {
+                    r.disabled++;
+                    cached = st;
                     continue;
                 }
                 res = spec->apply(st, op, true);
@@ -254,6 +272,13 @@ static int seqx_explore(const struct seqx_spec *spec, int maxdepth,
                         seqx_report_viol(&r, hist, n + 1);
                 } else if (spec->fini)
                     spec->fini(st);
+            }
+            if (cached != NULL) {
+                if (spec->final_check)
+                    spec->final_check(cached);
+                else if (spec->fini)
+                    spec->fini(cached);
+                cached = NULL;
             }
         }
         if (!capped) {
